@@ -19,6 +19,7 @@ import (
 	_ "github.com/bufbuild/verifharness/internal/climodel"
 	_ "github.com/bufbuild/verifharness/internal/configmodel"
 	_ "github.com/bufbuild/verifharness/internal/codegenmodel"
+	_ "github.com/bufbuild/verifharness/internal/commitmodel"
 	_ "github.com/bufbuild/verifharness/internal/depsmodel"
 	_ "github.com/bufbuild/verifharness/internal/digestmodel"
 	_ "github.com/bufbuild/verifharness/internal/faults"
